@@ -30,9 +30,15 @@ def main():
         prop = m['property']
         res = m.get('checks', {}).get(prop, [])
         det = [r for r in res if r.get('exit') == 1 and r.get('violations')]
+        other = [(pid, r[0]) for pid, r in m.get('checks', {}).items()
+                 if pid != prop and r and r[0].get('exit') == 1 and r[0].get('violations')]
         if det:
             verdict = 'caught by `./check %s %s`' % (prop, det[0]['tier'])
             witness = first_sentence(det[0].get('first', ''), 220)
+        elif other:
+            verdict = 'caught by `./check %s quick` (the property it actually breaks; `%s` itself stays silent)' % (
+                other[0][0], prop)
+            witness = first_sentence(other[0][1].get('first', ''), 220)
         elif name in OUT_OF_SCOPE:
             verdict = 'not caught - out of scope'
             witness = OUT_OF_SCOPE[name]
